@@ -52,6 +52,17 @@ class NumpyFilter(dsw.DefaultBioFilter):
         return (self.accepted == dna_string).any()
 
 
+class LocalSubclassFilter(dsw.LocalBioFilter):
+    """A user-defined filter derived from the built-in one (isinstance(..., LocalBioFilter) holds) with a rule of its own."""
+
+    def __init__(self, accepted):
+        super().__init__(observed_length=len(next(iter(accepted), "A")))
+        self.accepted = accepted
+
+    def valid(self, dna_sequence, only_last=True):
+        return dna_sequence in self.accepted
+
+
 def kmers_of(indices, k):
     return set("".join(impl.NT[(v // 4 ** (k - 1 - i)) % 4] for i in range(k)) for v in indices)   # transport of TLC's set
 
@@ -69,7 +80,7 @@ def run_valid(k, marked, as_int):
     n = 4 ** k
     m = numpy.zeros(n, dtype=int if as_int else bool)
     for v in marked:
-        m[v] = 1
+        m[v] = 1 + (v % 3) if as_int == 2 else 1          # as_int == 2: a union of 0/1 masks taken by addition (any non-zero cell is marked)
     keep = m.copy()
     r = impl.call(dsw.connect_valid_graph, k, m)
     res = {"out": outcome(r), "live": [], "unchanged": bool(numpy.array_equal(m, keep))}
@@ -83,7 +94,7 @@ def _replay_one(rec):
     bad = []
     if rec["src"] == "pred":
         filters = [("documented-interface", DocumentedFilter(kmers_of(marked, k))), ("local-style", LocalStyleFilter(kmers_of(marked, k))),
-                   ("numpy-verdicts", NumpyFilter(kmers_of(marked, k)))]
+                   ("numpy-verdicts", NumpyFilter(kmers_of(marked, k))), ("derived-from-LocalBioFilter", LocalSubclassFilter(kmers_of(marked, k)))]
     else:
         c = rec["cfg"]
         if not c12.float_guard(c["k"], c["gc"]):
@@ -100,7 +111,7 @@ def _replay_one(rec):
             bad.append(("error-on-non-empty-set", marked, {"filter": name, "outcome": g["out"]}))
         elif g["verts"] != marked:
             bad.append(("mask-differs-from-filter", marked, {"filter": name, "verts": g["verts"]}))
-    for as_int in (False, True):
+    for as_int in (False, True, 2):
         g = run_valid(k, marked, as_int)
         if not marked:
             if g["out"] == "ok":
